@@ -56,6 +56,7 @@ def check_C01(ctx, tier):
     K.rule_K_DISPATCH(ctx, ctx.repo)
     A.rule_A_FNAME(ctx, ctx.repo, A.Cache(ctx.repo, unroll=1))    # two keys never share an archive entry through a lossy entry name
     A.rule_A_GLOBAL(ctx, ctx.repo)         # ... and two archives never share a store through a process-wide registry
+    A.rule_A_SCHEMA(ctx, ctx.repo)         # ... nor two keys one row through a column affinity
     ctx.require_instances('W-KEY', 36, 'key uses')
     ctx.require_instances('W-ARGS', 12, 'evaluation sites')
     ctx.assume('an entry (k -> v) in memory or archive satisfies v = f(a) for K(a) = k at the start of the call (inductive hypothesis)')
@@ -82,6 +83,9 @@ def check_C02(ctx, tier):
     A.rule_A_KEYERR_FOUND(ctx, ctx.repo, ac)      # ... and a stored None / 0 / '' is found, not reported as missing
     A.rule_A_PUBFAIL(ctx, ctx.repo, ac)           # ... and a failed write of one result never destroys the results archived before
     A.rule_A_COMMIT(ctx, ctx.repo, ac)            # ... and a result written to a SQL archive is committed, so a second decorator instance / later session finds it
+    A.rule_A_PUBPARENTS(ctx, ctx.repo, ac)        # ... and an entry whose name is a nested path is really stored
+    A.rule_A_CODEC(ctx, ctx.repo)                 # ... and what is stored can be decoded by the session that needs it
+    A.rule_A_RED_COPY(ctx, ctx.repo, ac, parts=('red',))     # ... also when the archive reached that session inside a pickled decorator (same format settings)
     ctx.assume('cache.load(k) retrieves what cache.dump(k) stored for every backend (C03/C04/C08 decide their structural part)')
     ctx.assume('cache.archived() and purge have one value during a single wrapper call')
     return ('Compute-once on every path: at most one evaluation; evaluation only directly after a failed lookup of K which, '
@@ -139,6 +143,7 @@ def check_C07(ctx, tier):
     _ac = A.Cache(ctx.repo, unroll=1 if tier == 'quick' else 2)
     A.rule_A_PUBFAIL(ctx, ctx.repo, _ac)   # a failed write-back never replaces or removes what is archived
     A.rule_A_WRITEALL(ctx, ctx.repo, _ac)  # a dumped entry is written whatever the archive holds already
+    A.rule_A_CODEC(ctx, ctx.repo)          # ... in a form the reader (of any program) can decode
     return ('Every DEL(v)/CLEAR on a path with an archive attached is preceded by DUMP(v)/DUMP(*) with no intervening store; wrappers '
             'and management closures never touch the archive except through cache.dump/load.')
 
@@ -167,6 +172,7 @@ def check_C16(ctx, tier):
         W.rule_W_BKRES(ctx, d, paths)              # a key recorded in the bookkeeping without being resident makes a later, ordinary call fail inside the wrapper
         if d.name == 'lru_cache' and d.modname == 'safe':
             _sample_paths(ctx, d, paths, lambda o: any(e.kind == 'GETERR' for e in o.st.events))
+    A.rule_A_READFAIL(ctx, ctx.repo, A.Cache(ctx.repo, unroll=1))   # the archive probe on a miss answers "absent" (KeyError) for a key it cannot read; anything else escapes the wrapper before the function ran
     ctx.assume('exceptions of the wrapped function are split exactly by the handler classes that occur in each wrapper, plus KeyError, '
                'TypeError, a generic Exception subclass and a BaseException-only class')
     return ('On every path where the function raises: single evaluation, no cache/archive/bookkeeping/statistics mutation anywhere on the '
@@ -181,6 +187,7 @@ def check_C18(ctx, tier):
         W.rule_W_LOOKUP(ctx, d)
         W.rule_W_IFACE(ctx, d)
         W.rule_W_UPDATER(ctx, d)
+        W.rule_W_STATE(ctx, d, keys=('keymap', 'ignore'), allow_default=True)   # the keymap / ignore key() uses are this decorator's own
     return ('key() returns the same normal form K the wrapper looks up and stores under (36 sites), lookup() returns GET(K) and lets '
             'KeyError escape, neither evaluates nor mutates; interface attributes are wired to the decorator\'s own cache/keymap/ignore.')
 
@@ -191,8 +198,10 @@ def check_C09(ctx, tier):
     K.rule_K_OWN(ctx, ctx.repo)
     G.rule_SIG(ctx, ctx.repo)                      # positional values are filed under the names of the callable that is actually bound
     G.rule_K_CAPTURE(ctx, ctx.repo)                # every keyword of the call travels to the key generation
+    G.rule_G_PROBE(ctx, ctx.repo)                  # positional and keyword spelling of a call are keyed alike whatever the argument objects do when probed
     G.rule_G(ctx, ctx.repo, want=('G-VAL', 'G-PREC'))
     G.rule_G_STALE(ctx, ctx.repo)
+    RR.rule_R_GUARD_STR_KW(ctx, ctx.repo)          # rounding, which runs before the binding to names, treats a value alike whether it came positionally or by keyword
     for d, paths in _wrappers(ctx, tier):
         W.setup_abbrev(d)
         W.rule_W_KEY(ctx, d, paths)
@@ -211,6 +220,7 @@ def check_C10(ctx, tier):
     G.rule_SIG(ctx, ctx.repo)              # a positional value is never filed under a keyword-only / variadic name (two different calls would share a key)
     G.rule_K_CAPTURE(ctx, ctx.repo)        # no function on the way captures a user keyword by name
     G.rule_G(ctx, ctx.repo, want=('G-VAL', 'G-PREC'))
+    RR.rule_R_GUARD_STR_KW(ctx, ctx.repo)  # rounding touches floats only: every other value (bool vs int under typed=True) reaches the keymap as it was passed
     ctx.assume('injectivity of repr/str/pickle of the argument values and fast-type unwrapping collisions are not decided')
     return ('Every positional argument and every (name, value) keyword item reaches the key whole on every path of keymap.encode/encrypt; '
             'typed keys append the types of all positional and all keyword values; a configured sentinel separates every two adjacent '
@@ -224,6 +234,7 @@ def check_C17(ctx, tier):
     K.rule_K_HASH(ctx, ctx.repo)
     K.rule_K_OWN(ctx, ctx.repo)     # a key must not depend on what this process keyed before (module-level state on the key path)
     K.rule_K_BYREF(ctx, ctx.repo)   # dill pickles by reference
+    S.rule_S_LOAD_DUMP(ctx, ctx.repo)   # the key is handed to the archive as the one object it is (a raw key is a tuple: never unpacked into several keys)
     ctx.assume("process independence of the arguments' own repr/pickle is assumed by the property")
     return ('No process-dependent value (builtin hash, id, random, time, set iteration) reaches a key in the raw/string/pickle/named-hash '
             'configurations; keyword order is removed by the sorter; marker objects embedded in keys have constant reprs.')
@@ -232,6 +243,7 @@ def check_C17(ctx, tier):
 def check_C11(ctx, tier):
     G.rule_SIG(ctx, ctx.repo)
     G.rule_G_ZERO(ctx, ctx.repo)
+    G.rule_G_PROBE(ctx, ctx.repo)
     G.rule_G_STALE(ctx, ctx.repo)
     G.rule_G_FORMS(ctx, ctx.repo)
     G.rule_G_FIELDS(ctx, ctx.repo)
@@ -266,6 +278,7 @@ def check_C19(ctx, tier):
 
 
 def check_C12(ctx, tier):
+    G.rule_K_CAPTURE(ctx, ctx.repo)                # a rounder takes nothing but (*args, **kwds): a named parameter collides with a user keyword of that name
     ws = _wrappers(ctx, tier)
     RR.rule_W_RND(ctx, [d for d, _ in ws])
     for d, paths in ws:
@@ -292,7 +305,10 @@ def check_C08(ctx, tier):
     S.rule_S_SYNC(ctx, ctx.repo)
     S.rule_S_TOGGLE(ctx, ctx.repo)
     S.rule_S_NULL(ctx, ctx.repo)
-    A.rule_A_WRITEALL(ctx, ctx.repo, A.Cache(ctx.repo, unroll=1))     # what dump hands to archive.update is written, item for item
+    ac8 = A.Cache(ctx.repo, unroll=1)
+    A.rule_A_WRITEALL(ctx, ctx.repo, ac8)     # what dump hands to archive.update is written, item for item
+    A.rule_A_COMMIT(ctx, ctx.repo, ac8)       # ... and committed: sync(clear=True) / dump leave the archive (as every other handle reads it) equal to the cache
+    S.rule_S_IDENT(ctx, ctx.repo)             # the archiving switch does not depend on the identity of a per-process placeholder
     ctx.assume('archive.update / __asdict__ / __getitem__ of each backend behave as dict operations (C03)')
     return ('class cache overrides no dict primitive; per-method archive effects equal the table (load reads, dump updates, sync '
             'clears?/updates/reads, toggles rebind, others none); load/dump transfer exactly {a: source[a]} per argument or the whole '
@@ -314,6 +330,10 @@ def check_C03(ctx, tier):
     A.rule_A_COMMIT(ctx, ctx.repo, cache)         # every SQL write is committed (another handle of the same archive is the same dict)
     A.rule_A_GLOBAL(ctx, ctx.repo)                # archives of different names share nothing
     A.rule_A_GLOBROOT(ctx, ctx.repo)              # the archive's own path is never read as a glob pattern
+    A.rule_A_SCHEMA(ctx, ctx.repo)                # sqlite columns are typeless (keys of different types stay different rows)
+    A.rule_A_GETKEY(ctx, ctx.repo)                # the lister recovers exactly the key that was stored
+    A.rule_A_COPYTREE(ctx, ctx.repo)              # copy(name) does not merge into an existing archive
+    A.rule_A_PUBPARENTS(ctx, ctx.repo, cache)     # a key containing the path separator is stored (nested) like any other
     A.rule_A_READFAIL(ctx, ctx.repo, cache)       # a store that cannot be decoded reads as empty / missing
     A.rule_A_WRITEALL(ctx, ctx.repo, cache)       # every assignment reaches the store
     A.rule_A_EQ(ctx, ctx.repo, cache)
@@ -342,6 +362,7 @@ def check_C04(ctx, tier):
     A.rule_A_ABS(ctx, ctx.repo, cache)
     A.rule_A_FNAME(ctx, ctx.repo, cache)           # a later session finds an entry under the same name
     A.rule_A_CODEC(ctx, ctx.repo)                  # ... and decodes it with the module that encoded it
+    A.rule_A_GETKEY(ctx, ctx.repo)                 # ... and lists it under the key it was stored with
     A.rule_A_GLOBAL(ctx, ctx.repo)                 # ... from the store, not from a process-wide table of objects read earlier (klepto/_pickle.py included)
     A.rule_A_PUBFAIL(ctx, ctx.repo, cache)         # ... and a store that failed (encode error, lost publish race) left the stored contents alone
     ctx.tables['primitives'] = A.PRIMITIVES
@@ -353,6 +374,8 @@ def check_C04(ctx, tier):
 
 def check_C13(ctx, tier):
     cache = A.Cache(ctx.repo, unroll=1 if tier == 'quick' else 2)
+    A.rule_A_INITRAISE(ctx, ctx.repo)
+    A.rule_A_NAMEDHANDLE(ctx, ctx.repo)
     A.rule_A_PUB(ctx, ctx.repo, cache)
     A.rule_A_UNPUB(ctx, ctx.repo, cache)
     A.rule_A_VIS_STAGE(ctx, ctx.repo, cache)
@@ -369,6 +392,8 @@ def check_C13(ctx, tier):
 
 def check_C14(ctx, tier):
     cache = A.Cache(ctx.repo, unroll=1 if tier == 'quick' else 2)
+    A.rule_A_INITRAISE(ctx, ctx.repo)
+    A.rule_A_LAZY(ctx, ctx.repo)
     A.rule_A_PUB(ctx, ctx.repo, cache)
     A.rule_A_VIS_STAGE(ctx, ctx.repo, cache)
     A.rule_A_FACTORY_OPEN(ctx, ctx.repo, cache, open_only=True)
@@ -397,6 +422,7 @@ def check_C20(ctx, tier):
     A.rule_A_FACTORY_OPEN(ctx, ctx.repo, cache, open_only=True, factories=False)  # unpickling re-runs the constructor on the shared store: it must not write it
     A.rule_A_EFF(ctx, ctx.repo, cache, must_read_only=True)     # clone and original share storage only: every read goes to the store, not to a process-wide table
     S.rule_S_RED(ctx, ctx.repo)
+    S.rule_S_IDENT(ctx, ctx.repo)     # no behaviour hangs on the identity of a module-level instance that pickling copies
     K.rule_K_REPR(ctx, ctx.repo)      # K-SINGLETON: marker objects inside keys survive the round trip as themselves
     K.rule_K_STATE(ctx, ctx.repo)     # a keymap keeps its options through copy / pickle
     ctx.require_instances('W-RED', 12, 'decorator __reduce__ methods')
